@@ -70,6 +70,8 @@ def _judge(ctx, mods, st, w, o, what, want_exc, reason, expect_fail_reached=True
 
 def h_pull_fail(ctx, mods, shape):
     reason = ctx.bytes('reason', shape['rlen']) if shape['rlen'] else b''
+    if shape.get('reason') is not None:
+        reason = shape['reason'].encode('latin-1')
     at = tuple(shape['at'])
     st, w = _mk(ctx, mods, shape, fail={'at': at, 'reason': reason})
     op = ops.Pull(recs=shape['recs'], cb=shape.get('cb'), dest=shape.get('dest', 'bytesio'))
@@ -81,6 +83,8 @@ def h_pull_fail(ctx, mods, shape):
 
 def h_push_fail(ctx, mods, shape):
     reason = ctx.bytes('reason', shape['rlen']) if shape['rlen'] else b''
+    if shape.get('reason') is not None:
+        reason = shape['reason'].encode('latin-1')
     at = tuple(shape['at'])
     st, w = _mk(ctx, mods, shape, fail={'at': at, 'reason': reason})
     op = ops.Push(size=shape['size'], src=shape.get('src', 'path'), cb=shape.get('cb'))
@@ -164,6 +168,10 @@ def shapes(tier, seed):
             out.append({'h': 'push_fail', 'impl': impl, 'at': ['done'], 'size': size, 'rlen': 2, 'cuts': 0, 'src': 'bytesio'})
         if not q:
             out.append({'h': 'push_fail', 'impl': impl, 'at': ['wrte', 2], 'size': 200000, 'rlen': 2, 'cuts': 0, 'reorder': True, 'maxdata': 65536})
+    for impl in ('sync', 'async'):
+        for reason in ('disk 100% full', '%s', '%d items', '100%%', 'caf\xe9 \xff'):
+            out.append({'h': 'push_fail', 'impl': impl, 'at': ['done'], 'size': 5, 'rlen': 0, 'reason': reason, 'cuts': 0})
+            out.append({'h': 'pull_fail', 'impl': impl, 'at': ['recvdata', 1], 'recs': [2, 1], 'rlen': 0, 'reason': reason, 'cuts': 0})
     # a rejected push / pull while another stream is being read concurrently: still the documented exception (K1 timeouts are C06's)
     ss = ['streaming_shell', {'lens': [1]}]
     out.append({'h': 'async', 'ops': [['push', {'size': 5000, 'expect_exc': 'PushFailedError'}], ss], 'fail': ['done'], 'ignore_k1': True, 'max_paths': 200000})
